@@ -313,6 +313,17 @@ Definition sum_bits (fs : list bfield) : Z := fold_right (fun f acc => bf_bits f
 Definition wf_bfield (f : bfield) : bool :=
   (0 <=? bf_bits f) && adapter_total (bf_adapter f) && wf_adapter (bf_adapter f) 0 (mask (bf_bits f)).
 
+(* unshifted bit fields (helpers.BitField(shift=False)): the entry adapter sees the field's bits
+   in place, i.e. the values k * 2^cur for 0 <= k <= mask, so it must be lossless up to there *)
+Fixpoint wf_bfields_u (fs : list bfield) (cur : Z) : bool :=
+  match fs with
+  | [] => true
+  | f :: r =>
+      (0 <=? bf_bits f) && adapter_total (bf_adapter f)
+      && wf_adapter (bf_adapter f) 0 (Z.shiftl (mask (bf_bits f)) cur)
+      && wf_bfields_u r (cur + bf_bits f)
+  end.
+
 (* a fit check: member values representable in the field (not needed for losslessness) *)
 Definition enum_fits (c : cls) (t : wty) : bool :=
   forallb (fun e => in_wire_rangeb t (snd e)) (c_names c).
@@ -329,7 +340,8 @@ Definition registered_ok (s : serializer) (t : wty) : bool :=
       match dflt with Some a => adapter_total a && wf_adapter a (wmin t) (wmax t) | None => false end
   | SBitfield true fs =>
       negb (wsigned t) && (sum_bits fs =? wbits t) && distinct (map bf_name fs) && forallb wf_bfield fs
-  | SBitfield false fs => false      (* unshifted top-level bitfields: not modelled as lossless *)
+  | SBitfield false fs =>
+      negb (wsigned t) && (sum_bits fs =? wbits t) && distinct (map bf_name fs) && wf_bfields_u fs 0
   | SOpaque => false
   end.
 
